@@ -30,7 +30,8 @@ func ModelFor(dir, pkg string) (orig string, model string, declined []string, er
 				continue
 			}
 			for _, d := range f.Decls {
-				if fd, ok := d.(*ast.FuncDecl); ok {
+				if fd, ok := d.(*ast.FuncDecl); ok && fd.Recv == nil {
+					// methods stay with their types in the original package (the model refers to those by alias)
 					extra = append(extra, fd)
 				}
 			}
@@ -42,7 +43,7 @@ func ModelFor(dir, pkg string) (orig string, model string, declined []string, er
 			}
 			f.Decls = append(f.Decls, extra...)
 			b, _ := os.ReadFile(name)
-			header := "import (\n\t\"subj/sched\"\n\t\"subj/p\"\n)\n\n// S is the scheduler of the current run; the harness sets it before calling into the model.\nvar S *sched.Sched\n\ntype Item = p.Item\n\nvar _ = p.Anchor\n"
+			header := "import (\n\t\"subj/sched\"\n\t\"subj/p\"\n)\n\n// S is the scheduler of the current run; the harness sets it before calling into the model.\nvar S *sched.Sched\n\ntype Item = p.Item\n\ntype Namer = p.Namer\n\nvar _ = p.Anchor\n"
 			res, err := Rewrite(b, p.TypesInfo, p.Fset, f, "model"+pkg, header)
 			if err != nil {
 				return string(b), "", nil, err
